@@ -11,7 +11,8 @@
    writes per runtime file (loop_writes), what the test part of ruleHash's runtime section writes
    (rule_test_writes), the leading guards of needToRun (need_to_run_guards), the order of the guards and
    effects of cacheOutputFiles (store_steps), the lookup
-   order of getCommand (get_command_order) and the default / fallback build config.  No proofs here. *)
+   order of getCommand (get_command_order), the default / fallback build config, and how RuntimeHash
+   combines the per-file digests (files_combine: in iteration order, or sorted first).  No proofs here. *)
 From PlzV Require Import Base.Harness Gen.C11RuntimeHash.
 
 (* ---- runtime files ---- *)
@@ -53,7 +54,9 @@ Inductive tcmd :=
 | TTrue
 | TFail
 | TArgIs (w : str)                        (* sh -c 'test "$1" = w' sh     : the first test argument is w *)
-| TArgIsNot (w : str).                    (* sh -c 'test "$1" != w' sh    : the first test argument is not w *)
+| TArgIsNot (w : str)                     (* sh -c 'test "$1" != w' sh    : the first test argument is not w *)
+| TFileHas (dest : str) (w : str).        (* grep -qs w dest : the regular file AT dest contains w (which content
+                                             lies at which destination matters, not only which contents exist) *)
 
 Fixpoint prefix_b (w c : str) : bool :=
   match w, c with
@@ -111,6 +114,10 @@ Definition run_cmd (c : tcmd) (dir : list rfile) (a : list str) : bool :=
   | TFail => false
   | TArgIs w => str_eqb (first_arg a) w
   | TArgIsNot w => negb (str_eqb (first_arg a) w)
+  | TFileHas d w => match lookup d dir with          (* a directory or a missing path: grep exits 2 *)
+                    | Some (File c) => infix_b w c
+                    | _ => false
+                    end
   end.
 
 (* [files] is the list before de-duplication *)
@@ -211,8 +218,36 @@ Definition file_stream (f : rfile) : list str :=
    contributes a fixed-width digest, so the list structure is kept).  Config is constant within a history. *)
 Definition key := (str * list (list str))%type.
 
+(* How RuntimeHash combines the per-file digests (Gen.C11RuntimeHash.files_combine, read off the source):
+   CInOrder - each digest is written into the combining hash in the order IterRuntimeFiles yields the files,
+   so the position of a digest says which runtime file it belongs to; CSorted - the digests are collected and
+   sorted first, which makes the file part a hash of the MULTISET of contents.  The real sort is on the
+   digests; equality of two sorted digest lists is equality of the multisets, which (no collisions) is
+   equality of the multisets of pre-images, i.e. of the pre-image lists sorted by ANY total order: the model
+   sorts the per-file streams by the lexicographic order on lists of strings (insertion sort). *)
+Fixpoint lstr_leb (a b : list str) : bool :=
+  match a, b with
+  | [], _ => true
+  | _ :: _, [] => false
+  | x :: a', y :: b' => match str_cmp x y with Lt => true | Gt => false | Eq => lstr_leb a' b' end
+  end.
+
+Fixpoint insert_stream (x : list str) (l : list (list str)) : list (list str) :=
+  match l with
+  | [] => [x]
+  | y :: r => if lstr_leb x y then x :: l else y :: insert_stream x r
+  end.
+
+Definition sort_streams (l : list (list str)) : list (list str) := fold_right insert_stream [] l.
+
+Definition combine_files (c : fcombine) (l : list (list str)) : list (list str) :=
+  match c with
+  | CInOrder => l
+  | CSorted => sort_streams l
+  end.
+
 Definition runtime_key (t : tdef) : key :=
-  (concat (t_rule t), map file_stream (runtime_files (t_files t))).
+  (concat (t_rule t), combine_files files_combine (map file_stream (runtime_files (t_files t)))).
 
 Definition key_eqb (a b : key) : bool :=
   str_eqb (fst a) (fst b) && list_eqb (list_eqb str_eqb) (snd a) (snd b).
@@ -364,6 +399,7 @@ Definition tcmd_eqb (a b : tcmd) : bool :=
   | TExists d u, TExists d' u' => str_eqb d d' && option_eqb str_eqb u u'
   | TTrue, TTrue | TFail, TFail => true
   | TArgIs w, TArgIs w' | TArgIsNot w, TArgIsNot w' => str_eqb w w'
+  | TFileHas d w, TFileHas d' w' => str_eqb d d' && str_eqb w w'
   | _, _ => false
   end.
 
@@ -371,10 +407,28 @@ Definition tcmd_eqb (a b : tcmd) : bool :=
 Definition same_inputs_b (a b : tdef) : bool :=
   tcmd_eqb (t_cmd a) (t_cmd b) && list_eqb rfile_eqb (runtime_files (t_files a)) (runtime_files (t_files b)).
 
+(* which content stream lies at which position of IterRuntimeFiles (after de-duplication) *)
+Definition assignment (t : tdef) : list str := map (fun f => path_stream (rf_node f)) (runtime_files (t_files t)).
+
+(* An edit that re-assigns the nodes (contents) of the runtime files, keeping roles and destinations: the
+   i-th runtime file gets the i-th node of ns.  A PERMUTATION of the contents among the files (swap the
+   contents of two data files, rotate three) is with_nodes l ns for ns a permutation of map rf_node l. *)
+Fixpoint with_nodes (l : list rfile) (ns : list node) : list rfile :=
+  match l, ns with
+  | f :: r, n :: ns' => {| rf_role := rf_role f; rf_dest := rf_dest f; rf_node := n |} :: with_nodes r ns'
+  | _, _ => l
+  end.
+
+Definition with_files (t : tdef) (l : list rfile) : tdef :=
+  {| t_rule := t_rule t; t_cmd := t_cmd t; t_files := l; t_bin := t_bin t; t_build := t_build t |}.
+
 Inductive defect :=
 | RuntimeFileNamesNotHashed     (* equal key, but a runtime file lies at another destination *)
 | DirEntryNamesNotHashed        (* equal key, same destinations, but a directory's entries differ (C09) *)
-| OtherKeyCollision.            (* equal key although command or contents differ (unframed rule stream, ...) *)
+| ContentsPermuted              (* equal key, same command and destinations, but another content at some
+                                   position (cannot happen while the digests are combined in order:
+                                   Proof.C11_Perm.no_contents_permuted) *)
+| OtherKeyCollision.            (* equal key although the command differs (unframed rule stream, ...) *)
 
 Definition pair_defect (a b : tdef) : option defect :=
   if key_eqb (runtime_key a) (runtime_key b) && negb (same_inputs_b a b) then
@@ -384,7 +438,7 @@ Definition pair_defect (a b : tdef) : option defect :=
     else if negb (list_eqb str_eqb (map rf_dest da) (map rf_dest db)) then Some RuntimeFileNamesNotHashed
     else if list_eqb str_eqb (map (fun f => path_stream (rf_node f)) da) (map (fun f => path_stream (rf_node f)) db)
          then Some DirEntryNamesNotHashed
-         else Some OtherKeyCollision
+         else Some ContentsPermuted
   else None.
 
 Fixpoint first_some {A B} (f : A -> option B) (l : list A) : option B :=
